@@ -40,6 +40,9 @@ TEXT.update({
     "C06": ("set-algebra oracle over self-identifying join items (order, multiplicity, own components, mutation locality) for macro-generated join shapes of every arity",
             "For every shape and membership assignment the expected ascending index list is computed with BTreeSet algebra on the model; every yielded item must sit at its position, each member slot must carry that index's own component (by value id), optional members must be reported correctly, writes through items must land on that entity only (full storage comparison afterwards); lending joins must visit the same indices and get(entity) must answer exactly for alive-and-in-intersection.",
             "3.C06"),
+    "C07": ("exactly-once delivery monitor for par_join (per-index counters, index->thread partition signatures) against the sequential-join oracle; TSan on the same runs",
+            "Each worker reports (index, component ids, rayon thread index); after the parallel join every index of the sequential intersection must have been delivered exactly once, each item must carry that index's own components, and all writes made by workers must be visible in the storages. Pool sizes 1-64 and seeded per-item delays vary the split tree, which is observed (distinct partition signatures) but not controlled. Thorough adds ThreadSanitizer.",
+            "3.C07"),
     "C11": ("overlap monitor (per-storage reader/writer counters, logical-clock intervals, torn-write tokens) inside generated systems + borrow-state probe of SystemData declarations",
             "Random system graphs are dispatched on pools of 1-32 threads; each system updates atomic reader/writer counters for exactly the storages it holds, writes and re-validates unique tokens, and stamps enter/exit from a logical clock; after each dispatch exactly-once, conflict-pair disjointness, dependency, barrier and thread-local order are checked, panics escaping dispatch are violations, and for each storage handle type the real borrow state after fetch() is compared with reads()/writes(). Thorough adds ThreadSanitizer.",
             "3.C11"),
